@@ -32,6 +32,10 @@ func runC03(c *eng.Ctx) {
 	ruleReadAtAnswersFromTheFile(c)
 	c.Rule("R03.13", "K1")
 	ruleAppendRechecksReadonlyUnderTheLock(c)
+	c.Rule("R03.14", "K1")
+	ruleNothingCommittedMeansWait(c)
+	c.Rule("R03.15", "K3")
+	ruleAppendsWakeParkedCommittedReaders(c)
 	p := c.P
 	hw := p.Field(clPkg, "commitLog", "hw")
 	waiters := p.Field(clPkg, "commitLog", "hwWaiters")
@@ -461,6 +465,8 @@ func runC03(c *eng.Ctx) {
 		// the segment-less reader is returned exactly on offset > hw || OldestOffset() == -1
 		beyond := eng.CmpEdges(fn, eng.Param("offset"), eng.Call(-1, "server/commitlog.commitLog.HighWatermark"), eng.GT)
 		empty := eng.CmpEdges(fn, eng.Call(-1, "server/commitlog.commitLog.OldestOffset"), eng.IntConst(-1), eng.EQ)
+		// nothing committed at all (F92): also a reason to wait — offset > hw does not cover a negative offset at hw == -1
+		empty = append(empty, eng.CmpEdges(fn, eng.Call(-1, "server/commitlog.commitLog.HighWatermark"), eng.IntConst(-1), eng.EQ)...)
 		n := 0
 		for _, r := range eng.Returns(fn) {
 			if len(r.Results) != 2 || !eng.NilConst(r.Results[1]) {
@@ -470,7 +476,7 @@ func runC03(c *eng.Ctx) {
 			g, _ := eng.GuardedBy(fn, r, append(append([]eng.Edge{}, beyond...), empty...))
 			n++
 			if parked {
-				c.Check(g, "parked reader returned", c.Pos(r), "only when offset > hw or the log is empty", "a segment-less (parked) reader is returned on a path where the offset is committed and the log non-empty")
+				c.Check(g, "parked reader returned", c.Pos(r), "only when offset > hw, nothing is committed or the log is empty", "a segment-less (parked) reader is returned on a path where the offset is committed and the log non-empty")
 			} else {
 				within := eng.CmpEdges(fn, eng.Param("offset"), eng.Call(-1, "server/commitlog.commitLog.HighWatermark"), eng.LE)
 				nonEmpty := eng.CmpEdges(fn, eng.Call(-1, "server/commitlog.commitLog.OldestOffset"), eng.IntConst(-1), eng.NE)
